@@ -10,7 +10,7 @@
 #include <time.h>
 #include "libwifi.h"
 
-#define MAX_TOKS 64
+#define MAX_TOKS 8192
 #define MAX_LEDGER 4096
 #define TRACE_MAX 16384
 
